@@ -309,7 +309,8 @@ func c15TraceRun(cfg c15TailCfg, files int, steps []string) (res c15TrRes) {
 			endWait = 3 * time.Second
 		}
 		waitClosed(endWait)
-		// the last follower logs src.close after wg.Done(): give it a moment
+		// every follower logs src.close before its wg.Done() (/repo 7025f4b), so all of them are in the log once the
+		// channel is closed; the loop only matters for a tree with the older order (src.close after wg.Done())
 		deadline := time.Now().Add(200 * time.Millisecond)
 		for time.Now().Before(deadline) {
 			n := 0
